@@ -47,7 +47,7 @@ def main():
         demo_src = open(os.path.join(out, "demo.py")).read()
         # the demo may mention the agent's worktree path; point it at ours
         import re
-        demo_src = re.sub(r"/tmp/seed[2345]?/C\d\d(?!-out)", wt, demo_src)
+        demo_src = re.sub(r"/tmp/seed[23456]?/C\d\d(?!-out)", wt, demo_src)
         demo = os.path.join(tmp, "demo.py")
         open(demo, "w").write(demo_src)
 
